@@ -381,6 +381,7 @@ def run(ctx):
             ctx.broken[-1]["detail"] = {"failing_case_count": len(bad), "first": {"shape": c[0], "G": c[1], "samples": c[2], "roots": c[11]}, "item": items[bad[0]][:600]}
     fft_stream(ctx, quick)
     extreme_stream(ctx, 60 if quick else 400)
+    extreme_multisample(ctx, 3 if quick else 12)
     ctx.assumptions += [
         "exact rational arithmetic in the model: float rounding, the 1e-100 floor and FFT round-off are not modelled; they are validated on the FFT stream (exact big-integer oracle, forward noise bound) and the extreme-range stream (exact floor / underflow bounds); the quick tier runs reduced versions of both",
         "per-clone log_r is read through Tree._graph (private); when unreachable only the public root vector is compared",
@@ -701,6 +702,51 @@ def extreme_stream(ctx, reps=400):
     ctx.extra["extreme_entries_below_window"] = st['out']
     ctx.extra["extreme_worst_log_error_in_window"] = st['worst']
     ctx.log("extreme stream: %d entries inside the window (worst log error %.3g), %d below it" % (st['in'], st['worst'], st['out']))
+
+
+def extreme_multisample(ctx, reps=3):
+    """The direct path (and its floor window) must be used for every grid below 1000 points whatever the number of
+    samples: forests with few grid points but enough samples that samples x grid >= 1000, extreme-range values,
+    every sample row checked against the exact bounds of the direct path."""
+    rng = ctx.rng
+    st = {'in': 0, 'out': 0, 'worst': 0.0}
+    shapes = []
+    for n in range(2, 4):
+        shapes += [f for f in _forests(n) if shape_sig(f)[1] >= 2]
+    for rep in range(reps):
+        f = rng.choice(shapes)
+        G = rng.randint(5, 9)
+        NS = -(-1000 // G) + rng.randint(1, 20)
+        roots, npts = assign_points(rng, f, 1)
+        exps = [[[-rng.choice((0, 0, 0, 1, 5, 20, 40, 60, 90)) for _ in range(G)] for _ in range(NS)] for _ in range(npts)]
+        values = [[[Fraction(1, 10 ** (-e)) for e in row] for row in pt] for pt in exps]
+        data = make_data(values)
+        t = build(roots, data, (NS, G), False, rng)
+        obs = np.array(t.data_log_likelihood, dtype=float)
+        key = "C02:Tree.data_log_likelihood:extreme_range:many_samples"
+        replay = {"roots": roots, "grid": G, "samples": NS, "log10_values_first_rows": [pt[:2] for pt in exps]}
+        ctx.case(key=("extreme_ms", rep), nontrivial=True)
+        ctx.count("extreme_many_samples")
+        bad = False
+        for srow in range(NS):
+            ex, up, low = _bounds(t, None, values, srow, G)
+            for k in range(G):
+                lex = _flog(ex[k])
+                o = obs[srow][k]
+                if not np.isfinite(o):
+                    ctx.fail(key + ":nonfinite", "non-finite entry", replay); bad = True; break
+                if o > _flog(ex[k] + up[k]) + 1e-9 or (ex[k] - low[k] > 0 and o < _flog(ex[k] - low[k]) - 1e-9):
+                    ctx.fail(key, "sample %d entry %d: reported log %.12g outside the direct path's bounds around the exact log %.12g (samples x grid = %d >= 1000, grid %d < 1000)" % (srow, k, o, lex, NS * G, G), replay); bad = True; break
+                if (up[k] + low[k]) * 10**10 <= ex[k]:
+                    st['in'] += 1
+                    if abs(o - lex) > 1e-9:
+                        ctx.fail(key, "sample %d entry %d inside the floor window: log value %.12g, exact %.12g" % (srow, k, o, lex), replay); bad = True; break
+                else:
+                    st['out'] += 1
+            if bad:
+                break
+    ctx.extra["extreme_many_samples_entries_in_window"] = st['in']
+    ctx.log("extreme many-samples stream: %d entries inside the window, %d below" % (st['in'], st['out']))
 
 
 # ------------------------------------------------------------------ replay of one recorded failing input
